@@ -5,7 +5,7 @@ import json
 import core
 import scen_proc
 
-PROPS = ['Props/C12.lean']
+PROPS = ['Props/C12.lean', 'Legacy/ProcOutcome.lean']
 
 
 def keyfn(case, res, m):
@@ -60,6 +60,15 @@ def run(chk):
         chk.account(scen_proc, res2, 'E4-processes')
         chk.collect_monitors(res2, {'C12'}, keyfn)
         chk.notes.append(f'correspondence broke on {len(chk.corr_breaks)} cases; escalated search over {len(more)} more cases')
+    # recogniser: does the failing behaviour match the legacy model's proven counterexample?
+    for v in chk.violations:
+        ans = dict((a, r) for a, r in (v.get('events') or []) if isinstance(a, str))
+        k = v['case'].get('kill')
+        if k and k['sig'] != 15 and k['phase'] != 'after' and (
+                'HANG' in (ans.get('wait'), ans.get('as_completed')) or str(ans.get('exception', '')).startswith('raise:oserror')):
+            chk.notes.append('behaviour matches Legacy/ProcOutcome.lean F13_witness: the collector raised instead of resolving the future '
+                             '(wait/as_completed blocked, exception() raises) - defect F13 is present')
+            break
     dist = collections.Counter(scen_proc.case_class(c) for c, _ in results)
     chk.cov['distribution'] = dict(case_classes=dict(sorted(dist.items())),
                                    first_accessor=dict(collections.Counter(c['order'][0] for c, _ in results)),
